@@ -25,6 +25,7 @@ type Place struct {
 	Typ    types.Type
 	Cell   ssa.Value // *ssa.Alloc or *ssa.FreeVar (PLocal)
 	Lo     int
+	Path   string // field path below the cell (PLocal), e.g. ".input.pos"
 	Prefix string
 	Obj    Term
 	Arr    Term
@@ -165,6 +166,7 @@ type State struct {
 	unroll map[*ssa.BasicBlock]int
 	decr   map[*ssa.BasicBlock]Term
 	rangePos map[ssa.Value]Term // Range instr -> current position
+	promoted map[ssa.Value]Term // local cells whose address escaped: now heap objects
 	dead   bool
 	trace  []string
 }
@@ -205,8 +207,62 @@ func (s *State) clone() *State {
 	for k, v := range s.rangePos {
 		n.rangePos[k] = v
 	}
+	n.promoted = make(map[ssa.Value]Term, len(s.promoted))
+	for k, v := range s.promoted {
+		n.promoted[k] = v
+	}
 	n.trace = append([]string(nil), s.trace...)
 	return n
+}
+
+// resolve redirects places in promoted local cells to the heap object they became.
+func (s *State) resolve(p *Place) *Place {
+	if p.Kind != PLocal {
+		return p
+	}
+	ref, ok := s.promoted[p.Cell]
+	if !ok {
+		return p
+	}
+	ct := cellType(p.Cell)
+	base := "C_" + typeKey(ct)
+	if _, isStruct := ct.Underlying().(*types.Struct); isStruct {
+		base = "H_" + typeKey(ct)
+	}
+	return &Place{Kind: PHeap, Typ: p.Typ, Prefix: base + p.Path, Obj: ref}
+}
+
+func cellType(c ssa.Value) types.Type {
+	return c.Type().Underlying().(*types.Pointer).Elem()
+}
+
+// promote turns a pointer to a whole local cell into a heap reference (the address escapes).
+func (s *State) promote(v Value) Value {
+	if v.Place == nil || v.Place.Kind != PLocal {
+		return v
+	}
+	p := v.Place
+	if ref, ok := s.promoted[p.Cell]; ok {
+		if p.Lo != 0 || p.Path != "" {
+			panic(unsupported("address of a field of an escaped local"))
+		}
+		return Value{Typ: v.Typ, L: []Term{ref}}
+	}
+	if p.Lo != 0 || p.Path != "" {
+		panic(unsupported("address of a field of a local escapes"))
+	}
+	cur, ok := s.cells[p.Cell]
+	if !ok {
+		panic(unsupported("escape of unknown cell"))
+	}
+	if cur.Place != nil || cur.Clo != nil {
+		panic(unsupported("escape of a cell holding a local pointer/closure"))
+	}
+	ref := s.alloc()
+	s.promoted[p.Cell] = ref
+	hp := s.resolve(p)
+	s.store(hp, Value{Typ: p.Typ, L: cur.L})
+	return Value{Typ: v.Typ, L: []Term{ref}}
 }
 
 func (s *State) assume(t Term) {
@@ -361,6 +417,7 @@ func isLiteral(t Term) bool {
 // Place load/store
 
 func (s *State) load(p *Place) Value {
+	p = s.resolve(p)
 	ls := flatten(p.Typ)
 	v := Value{Typ: p.Typ}
 	switch p.Kind {
@@ -394,6 +451,7 @@ func (s *State) load(p *Place) Value {
 		}
 	}
 	s.assumeWellTyped(v)
+	s.assumeRefs(v) // well-typed memory: every stored reference is below the allocation mark
 	return v
 }
 
@@ -401,6 +459,13 @@ func (s *State) store(p *Place, v Value) {
 	ls := flatten(p.Typ)
 	if len(v.L) != len(ls) {
 		panic(fmt.Sprintf("store: leaf mismatch %d vs %d for %v", len(v.L), len(ls), p.Typ))
+	}
+	p = s.resolve(p)
+	if v.Place != nil && v.Place.Kind == PLocal {
+		whole := p.Kind == PLocal && p.Lo == 0 && len(ls) == len(s.cells[p.Cell].L)
+		if !whole {
+			v = s.promote(v)
+		}
 	}
 	switch p.Kind {
 	case PLocal:
@@ -479,6 +544,7 @@ func (p *Place) field(idx int) *Place {
 	case PLocal:
 		lo, _ := fieldRange(st, idx)
 		np.Lo = p.Lo + lo
+		np.Path = p.Path + "." + f.Name()
 	default:
 		np.Prefix = p.Prefix + "." + f.Name()
 	}
